@@ -148,6 +148,17 @@ CHECKS["C10"] = dict(
    note=TB + "Bounds: contig sizes 1-3, <=2 (quick) / <=3 (thorough) entries; merge distances 0 and 1; extension lengths 1-3; flanks 0-1.",
    technique="TLA+ per-contig lifting of the interval definitions checked by TLC; every state replayed into the genome-wide API",
    design="6/C10")
+CHECKS["C11"] = dict(
+   text="spec/Streams.tla models a stream as the action Consume(m) that takes the next m entries of a key-sorted dataset, so its "
+        "behaviours are exactly the 2^(n-1) cuts (single-entry chunks, cuts inside a group); every streamable computation is a fold "
+        "and TLC checks FoldRight (sum-and-n, padded bin counts, histogram, group-by with the open group joined across chunk borders), "
+        "RechunkRight (chunk_entries) and LinesRight (chunk_lines) on every behaviour. Every completed behaviour is replayed through "
+        "mean, bincount, histogram, groupby, chunk_entries, chunk_lines, count_kmers and per-chromosome pipelines built on streamed "
+        "intervals and evaluated with bnp.compute (pile-up sum / histogram, mask, comparison, get_data), compared with the "
+        "specification's value and with the same call on the concatenated data.",
+   note=TB + "Bounds: n<=5 exhaustive cuts in the quick tier; n<=7 and n<=10 (512 cuts per dataset) in the thorough tier; 2-3 keys.",
+   technique="TLA+ fold model whose behaviours are the chunkings, checked by TLC; every behaviour replayed into the streaming API",
+   design="6/C11")
 PENDING = {}
 def main():
     props = [json.loads(l)["id"] for l in open(os.path.join(HERE, "properties.jsonl"))]
